@@ -775,6 +775,68 @@ def _():
     return [s0, fwd, bwd, ('final', [Implies(T.pda_acc_z(P2, w), T.pda_acc_z(P, w)), Implies(T.pda_acc_z(P, w), T.pda_acc_z(P2, w))], T.pda_acc_z(P2, w) == T.pda_acc_z(P, w))]
 
 
+def _ner_consts():
+    return Const('d_', T.DeltaD), Const('Sg_', T.SetA), Const('F_', T.SetA)
+
+
+@proof('nerode', 'dist-back')
+def _():
+    d, Sg, Fz = _ner_consts(); x, y = Consts('x_ y_', Atom)
+    return word_ind(lambda v: ForAll([x, y], Implies(And(T.over(Sg, v), T.distF(d, Sg, Fz, T.dhat(d, x, v), T.dhat(d, y, v))), T.distF(d, Sg, Fz, x, y))))
+
+
+@proof('nerode', 'dist-of-word')
+def _():
+    d, Sg, Fz = _ner_consts(); x, y = Consts('x_ y_', Atom); v = Const('v_', Word)
+    mid = T.distF(d, Sg, Fz, T.dhat(d, x, v), T.dhat(d, y, v))
+    return [('ends-differ', [Select(Fz, T.dhat(d, x, v)) != Select(Fz, T.dhat(d, y, v))], mid), ('back', [T.over(Sg, v), mid], T.distF(d, Sg, Fz, x, y))]
+
+
+@proof('nerode', 'dist-has-word')
+def _():
+    d, Sg, Fz = _ner_consts(); x, y, a = Consts('x_ y_ a_', Atom); v = Const('v_', Word)
+    Tt = Const('T_', T.RelA)
+    W = lambda x, y, v: And(T.over(Sg, v), Select(Fz, T.dhat(d, x, v)) != Select(Fz, T.dhat(d, y, v)))
+    defT = ForAll([x, y], Select(Tt, T.mkKey2(x, y)) == z3.Exists([v], W(x, y, v)))
+    b = ('base-witness', [Select(Fz, x) != Select(Fz, y)], W(x, y, Word.nil))
+    s_ = ('step-witness', [Select(Sg, a), W(Select(d, T.mkKey2(x, a)), Select(d, T.mkKey2(y, a)), v)], W(x, y, T.cons(a, v)))
+    cl1 = ('closed-base', [defT, ForAll([x, y], Implies(Select(Fz, x) != Select(Fz, y), W(x, y, Word.nil)))], ForAll([x, y], Implies(Select(Fz, x) != Select(Fz, y), Select(Tt, T.mkKey2(x, y)))))
+    cl2 = ('closed-step', [defT, ForAll([x, y, a, v], Implies(And(Select(Sg, a), W(Select(d, T.mkKey2(x, a)), Select(d, T.mkKey2(y, a)), v)), W(x, y, T.cons(a, v))))],
+           ForAll([x, y, a], Implies(And(Select(Sg, a), Select(Tt, T.mkKey2(Select(d, T.mkKey2(x, a)), Select(d, T.mkKey2(y, a))))), Select(Tt, T.mkKey2(x, y)))))
+    fin = ('least', [defT, cl1[2], cl2[2], T.dist_least(d, Sg, Fz, Tt), T.distF(d, Sg, Fz, x, y)], z3.Exists([v], W(x, y, v)))
+    return [b, s_, cl1, cl2, fin]
+
+
+@proof('nerode', 'dist-irrefl')
+def _():
+    d, Sg, Fz = _ner_consts(); x = Const('x_', Atom)
+    return [('by-word', [], Not(T.distF(d, Sg, Fz, x, x)))]
+@proof('nerode', 'dist-sym')
+def _():
+    d, Sg, Fz = _ner_consts(); x, y = Consts('x_ y_', Atom)
+    return [('fwd', [T.distF(d, Sg, Fz, x, y)], T.distF(d, Sg, Fz, y, x)), ('both', [ForAll([x, y], Implies(T.distF(d, Sg, Fz, x, y), T.distF(d, Sg, Fz, y, x)))], T.distF(d, Sg, Fz, x, y) == T.distF(d, Sg, Fz, y, x))]
+@proof('nerode', 'dist-trans')
+def _():
+    d, Sg, Fz = _ner_consts(); x, y, q = Consts('x_ y_ q_', Atom)
+    return [('by-word', [T.distF(d, Sg, Fz, x, q)], Or(T.distF(d, Sg, Fz, x, y), T.distF(d, Sg, Fz, y, q)))]
+
+
+def ext_eq_s(lhs, rhs, srt, hyps=(), tag=''):
+    c = fresh_z('k', srt)
+    pw = ForAll([c], Select(lhs, c) == Select(rhs, c))
+    return [(tag + 'pointwise', list(hyps), pw), (tag + 'ext', [pw], lhs == rhs)]
+
+
+@proof('nerode', 'trues-store')
+def _():
+    td, tv = Consts('td_ tv_', T.TabSet); k = Const('tk_', T.TabK); b = Const('b_', z3.BoolSort())
+    return ext_eq_s(T.trues(z3.Store(td, k, True), z3.Store(tv, k, b)), z3.Store(T.trues(td, tv), k, b), T.TabK)
+@proof('nerode', 'trues-empty')
+def _():
+    tv = Const('tv_', T.TabSet)
+    return ext_eq_s(T.trues(z3.K(T.TabK, False), tv), z3.K(T.TabK, False), T.TabK)
+
+
 def int_ind(P, lo=0):
     """induction on an integer >= lo: P(lo) and (j >= lo and P(j)) => P(j+1)"""
     j = fresh_z('j', z3.IntSort())
@@ -799,7 +861,7 @@ def prove_lemmas(theories, timeout=10):
     """-> list of (name, status, log); a lemma may use the def/lfp/assumed axioms of the selected theories and earlier lemmas"""
     from .smt import discharge
     obls = []
-    order = ['word', 'wordx', 'naming', 'dfa', 'nfa', 'dfax', 'nfax', 'regexp', 'nfastar', 'tm', 'pda', 'pdax', 'cfg', 'iso', 'subset']
+    order = ['word', 'wordx', 'naming', 'dfa', 'nfa', 'dfax', 'nerode', 'nfax', 'regexp', 'nfastar', 'tm', 'pda', 'pdax', 'cfg', 'iso', 'subset']
     ths = [t for t in order if t in theories] + [t for t in theories if t not in order]
     from .verify import DEPENDS
     def closure(t, out=None):
